@@ -187,7 +187,7 @@ class Pervaporation:
             precision,
             permeate_temperature,
             permeate_pressure,
-            calculation_type
+            calculation_type=calculation_type,
         )
         return Composition(x[0] / numpy.sum(x), type=CompositionType.weight)
 
@@ -250,7 +250,7 @@ class Pervaporation:
                     precision,
                     permeate_temperature,
                     permeate_pressure,
-                    calculation_type,
+                    calculation_type=calculation_type,
                 )
                 for composition in compositions
             ],
